@@ -9,6 +9,7 @@ import (
 	"github.com/B1NARY-GR0UP/originium"
 
 	"verif/shim/vos"
+	"verif/shim/vsync"
 	"verif/shim/vtime"
 	"verif/vsched"
 )
@@ -21,6 +22,10 @@ type crashWorkload struct {
 	Cfg   dbCfg
 	Txns  []txProg
 	Close bool
+	// Par: groups of transaction indices committed by concurrent goroutines (each group in order) after the
+	// transactions that are in no group have been committed one after the other. Groups write disjoint keys,
+	// so the acknowledged state does not depend on the commit order the schedule picks.
+	Par [][]int
 }
 
 func wtx(ops ...string) txProg {
@@ -44,20 +49,23 @@ func crashBig(k string) bool { return k >= "A" && k <= "Z" }
 func crashWorkloads() []crashWorkload {
 	return []crashWorkload{
 		{"W1-rotation-flush", dbCfg{Mem: 70, Imm: 1, Block: 30, L0: 2, Ratio: 2, SL: 2},
-			[]txProg{wtx("Sa"), wtx("Sb"), wtx("Sa", "Sc"), wtx("Db"), wtx("Sc"), wtx("Sd")}, true},
+			[]txProg{wtx("Sa"), wtx("Sb"), wtx("Sa", "Sc"), wtx("Db"), wtx("Sc"), wtx("Sd")}, true, nil},
 		{"W2-l0-l1-compaction", dbCfg{Mem: 1, Imm: 1, Block: 1, L0: 1, Ratio: 2, SL: 1},
-			[]txProg{wtx("Sa"), wtx("Sb"), wtx("Sa"), wtx("Da"), wtx("Sc")}, true},
+			[]txProg{wtx("Sa"), wtx("Sb"), wtx("Sa"), wtx("Da"), wtx("Sc")}, true, nil},
 		{"W3-cascade-deletes", dbCfg{Mem: 1, Imm: 1, Block: 4096, L0: 1, Ratio: 1, SL: 2},
-			[]txProg{wtx("Sa"), wtx("Sd"), wtx("Da"), wtx("Sb"), wtx("Sa"), wtx("Dd")}, false},
+			[]txProg{wtx("Sa"), wtx("Sd"), wtx("Da"), wtx("Sb"), wtx("Sa"), wtx("Dd")}, false, nil},
 		{"W4-multikey-straddles-rotation", dbCfg{Mem: 70, Imm: 1, Block: 4096, L0: 2, Ratio: 2, SL: 1},
-			[]txProg{wtx("Sa"), wtx("Sb", "Sc", "Sd"), wtx("Sa", "Db", "Sc"), wtx("Sd", "Sa")}, true},
+			[]txProg{wtx("Sa"), wtx("Sb", "Sc", "Sd"), wtx("Sa", "Db", "Sc"), wtx("Sd", "Sa")}, true, nil},
 		{"W5-close-with-queued-flushes", dbCfg{Mem: 1, Imm: 2, Block: 30, L0: 2, Ratio: 2, SL: 1},
-			[]txProg{wtx("Sa"), wtx("Sb"), wtx("Sa", "Sc")}, true},
+			[]txProg{wtx("Sa"), wtx("Sb"), wtx("Sa", "Sc")}, true, nil},
 		{"W6-multikey-atomicity", dbCfg{Mem: 200, Imm: 1, Block: 4096, L0: 2, Ratio: 2, SL: 1},
-			[]txProg{wtx("Sa", "Sb"), wtx("Sa", "Sb", "Sc"), wtx("Da", "Sb", "Sd"), wtx("Sc", "Sd")}, true},
-		// large values (crashBig marks keys whose values are 30 000 bytes): a transaction of more than 64 KiB
+			[]txProg{wtx("Sa", "Sb"), wtx("Sa", "Sb", "Sc"), wtx("Da", "Sb", "Sd"), wtx("Sc", "Sd")}, true, nil},
+		// large values (crashBig marks keys whose values are 30 000 bytes, 65 535 for key A): a transaction of more than 64 KiB
 		{"W7-large-multikey", dbCfg{Mem: 100000, Imm: 1, Block: 4096, L0: 2, Ratio: 2, SL: 1},
-			[]txProg{wtx("Sa", "Sb", "Sc", "Sd"), wtx("SA", "SB", "SC", "Sd"), wtx("Sa", "DB", "SC")}, true},
+			[]txProg{wtx("Sa", "Sb", "Sc", "Sd"), wtx("SA", "SB", "SC", "Sd"), wtx("Sa", "DB", "SC")}, true, nil},
+		// two goroutines commit multi-key transactions on disjoint keys at the same time, with rotation
+		{"W8-two-committers", dbCfg{Mem: 70, Imm: 1, Block: 4096, L0: 2, Ratio: 2, SL: 1},
+			[]txProg{wtx("Sa", "Sc"), wtx("Sa", "Sb"), wtx("Db", "Sa"), wtx("Sc", "Sd"), wtx("Dc", "Sd")}, true, [][]int{{1, 2}, {3, 4}}},
 	}
 }
 
@@ -69,7 +77,11 @@ func crashWrites(w crashWorkload, i int) map[string]*string {
 		case "S":
 			v := fmt.Sprintf("t%d.%d", i, j)
 			if crashBig(o.K) {
-				v += strings.Repeat("x", 30000)
+				n := 30000
+				if o.K == "A" {
+					n = 65535 - len(v) // the largest value the engine accepts: its wal record exceeds 64 KiB
+				}
+				v += strings.Repeat("x", n)
 			}
 			m[o.K] = &v
 		case "D":
@@ -101,7 +113,13 @@ func crashScenario(w crashWorkload, analyse func(run crashRun, res vsched.Result
 				panic(err)
 			}
 			fs.Points = true
-			for i := range w.Txns {
+			inPar := map[int]bool{}
+			for _, g := range w.Par {
+				for _, i := range g {
+					inPar[i] = true
+				}
+			}
+			commit := func(i int) {
 				wr := crashWrites(w, i)
 				vos.MarkEvent(fmt.Sprintf("call %d", i))
 				err := db.Update(func(tx *originium.Txn) error {
@@ -118,6 +136,25 @@ func crashScenario(w crashWorkload, analyse func(run crashRun, res vsched.Result
 					panic(fmt.Sprintf("workload commit %d failed: %v", i, err))
 				}
 				vos.MarkEvent(fmt.Sprintf("ack %d", i))
+			}
+			for i := range w.Txns {
+				if !inPar[i] {
+					commit(i)
+				}
+			}
+			if len(w.Par) > 0 {
+				var wg vsync.WaitGroup
+				for gi, g := range w.Par {
+					g := g
+					wg.Add(1)
+					vsched.GoUser(fmt.Sprintf("committer%d", gi), func() {
+						defer wg.Done()
+						for _, i := range g {
+							commit(i)
+						}
+					})
+				}
+				wg.Wait()
 			}
 			if w.Close {
 				vos.MarkEvent("close-call")
@@ -280,6 +317,9 @@ func recoverImage(img *vos.FS, cfg dbCfg, prev time.Time, class int, exp crashEx
 		if !readAll("after-post-commit", kvState{"a": "post"}) {
 			return
 		}
+		// the process may die again right here, without Close: the image at this moment must recover as well
+		// (checked below, after the clean Close/reopen path)
+		postCrash := fs.Clone()
 		db.Close()
 		vos.MarkEvent("post-closed")
 		setRecoveryClock(vtime.Now(), (class+1)%3)
@@ -289,6 +329,19 @@ func recoverImage(img *vos.FS, cfg dbCfg, prev time.Time, class int, exp crashEx
 			return
 		}
 		if !readAll("after-post-reopen", kvState{"a": "post"}) {
+			return
+		}
+		db.Close()
+		vos.MarkEvent("post-crash-image")
+		fs2 := postCrash
+		vos.SetFS(fs2)
+		setRecoveryClock(vtime.Now(), (class+2)%3)
+		db, err = originium.Open("/d", cfg.config())
+		if err != nil {
+			fail("open-error", "Open after a second crash (right after the first commit of the recovered store) returned %v", err)
+			return
+		}
+		if !readAll("after-post-commit-crash", kvState{"a": "post"}) {
 			return
 		}
 		db.Close()
@@ -403,7 +456,7 @@ func analyseCrashes(c *Ctx, w crashWorkload, run crashRun, o crashOpts, dd crash
 			continue
 		}
 		exp := crashExpect{acked: kvState{}, everSet: ever}
-		inflight := -1
+		called := map[int]bool{}
 		for _, op := range log[:k] {
 			if op.Kind != "mark" {
 				continue
@@ -411,13 +464,20 @@ func analyseCrashes(c *Ctx, w crashWorkload, run crashRun, o crashOpts, dd crash
 			var i int
 			if n, _ := fmt.Sscanf(op.Mark, "ack %d", &i); n == 1 {
 				exp.acked.apply(crashWrites(w, i))
-				inflight = -1
+				delete(called, i)
 			} else if n, _ := fmt.Sscanf(op.Mark, "call %d", &i); n == 1 {
-				inflight = i
+				called[i] = true
 			}
 		}
-		if inflight >= 0 {
-			exp.inflight = []map[string]*string{crashWrites(w, inflight)}
+		var infl []int
+		for i := range called {
+			infl = append(infl, i)
+		}
+		sort.Ints(infl)
+		inflight := -1
+		for _, i := range infl {
+			exp.inflight = append(exp.inflight, crashWrites(w, i))
+			inflight = i
 		}
 		img := vos.Image(log, k)
 		st.images++
@@ -458,7 +518,7 @@ func analyseCrashes(c *Ctx, w crashWorkload, run crashRun, o crashOpts, dd crash
 		}
 		for vi, v := range variants {
 			h := v.Hash()
-			h = vsched.Mix(h, vsched.HashString(fmt.Sprint(exp.acked, inflight)))
+			h = vsched.Mix(h, vsched.HashString(fmt.Sprint(exp.acked, infl)))
 			if dd[h] {
 				continue
 			}
@@ -481,8 +541,8 @@ func analyseCrashes(c *Ctx, w crashWorkload, run crashRun, o crashOpts, dd crash
 						torn = "/torn"
 					}
 					return oerr(oe.Sig+torn+"/"+where+fmt.Sprintf("/clock%d", cl),
-						"workload %s, crash at log position %d (%s)%s, recovery clock class %d, acknowledged state %v, in flight #%d:\n%s\nfiles in the image: %v\nlast operations before the crash: %s",
-						w.Name, k, where, tornDesc[vi], cl, exp.acked, inflight, oe.Detail, v.Names(), tailOps(log, k, 8))
+						"workload %s, crash at log position %d (%s)%s, recovery clock class %d, acknowledged state %v, in flight %v:\n%s\nfiles in the image: %v\nlast operations before the crash: %s",
+						w.Name, k, where, tornDesc[vi], cl, exp.acked, infl, oe.Detail, v.Names(), tailOps(log, k, 8))
 				}
 				// crash again during recovery (from the untorn image only when tails are being cut: the product is covered
 				// by cutting the tails of the nested image coarsely - nothing, half, everything unsynced)
@@ -510,7 +570,7 @@ func analyseCrashes(c *Ctx, w crashWorkload, run crashRun, o crashOpts, dd crash
 							}
 						}
 						for ni, n2 := range nested {
-							h2 := vsched.Mix(n2.Hash(), vsched.HashString(fmt.Sprint(exp.acked, inflight, "n")))
+							h2 := vsched.Mix(n2.Hash(), vsched.HashString(fmt.Sprint(exp.acked, infl, "n")))
 							if dd[h2] {
 								continue
 							}
